@@ -1185,12 +1185,19 @@ func (sc *serverConn) handleFrame(strm *Stream, fr *FrameHeader) error {
 
 func (sc *serverConn) handleHeaderFrame(strm *Stream, fr *FrameHeader) error {
 	// A second header block on a stream whose request headers are already done
-	// is a trailer, which must carry both END_STREAM and END_HEADERS. Its
-	// fields join the request headers, which is the nearest thing fasthttp's
-	// request has to a place for them.
+	// is a trailer, which must end the stream. Its fields join the request
+	// headers, which is the nearest thing fasthttp's request has to a place
+	// for them.
 	// https://httpwg.org/specs/rfc7540.html#rfc.section.8.1
-	if strm.headersFinished && !fr.Flags().Has(FlagEndStream|FlagEndHeaders) {
-		return NewGoAwayError(ProtocolError, "stream not open")
+	if strm.headersFinished && fr.Type() == FrameHeaders {
+		if !fr.Flags().Has(FlagEndStream) {
+			return NewGoAwayError(ProtocolError, "stream not open")
+		}
+
+		// Like any header block the trailers may go on in CONTINUATION frames.
+		// The block is open again until its END_HEADERS, and the request is
+		// not complete, and not dispatched, before that.
+		strm.headersFinished = false
 	}
 
 	if headerFrame, ok := fr.Body().(*Headers); ok && headerFrame.Stream() == strm.ID() {
